@@ -119,6 +119,74 @@ def eq_coverage(repo, c, model, f):
     return cov
 
 
+def accepting_paths_compare_everything(rep, r1, c, f, fields):
+    """R9.1 (path form): a `return True` (or a return of a conjunction) is reached only through tests that hold; the fields compared in
+    those tests plus the ones in the returned expression must be ALL serialised fields - an early `return True` for "both empty"
+    skips the comparisons that come after it."""
+    from .. import cfg as cfgmod
+    from ..cfg import solve_forward
+    sn, on = f.params[0], f.params[1]
+
+    def mentioned(e):
+        a = {x.attr for x in ast.walk(e) if isinstance(x, ast.Attribute) and isinstance(x.value, ast.Name) and x.value.id == sn}
+        b = {x.attr for x in ast.walk(e) if isinstance(x, ast.Attribute) and isinstance(x.value, ast.Name) and x.value.id == on}
+        return a & b
+
+    def positive_conjuncts(e):
+        if isinstance(e, ast.BoolOp) and isinstance(e.op, ast.And):
+            out = set()
+            for v in e.values:
+                out |= positive_conjuncts(v)
+            return out
+        if isinstance(e, ast.BoolOp):            # a disjunction establishes nothing
+            return set()
+        if isinstance(e, ast.UnaryOp) and isinstance(e.op, ast.Not):
+            return set()
+        return mentioned(e)
+
+    g = cfgmod.build(f.node)
+    locals_cmp = {}
+    for n in walk_local_stmt(f.node):
+        if isinstance(n, ast.Assign) and len(n.targets) == 1 and isinstance(n.targets[0], ast.Name):
+            locals_cmp[n.targets[0].id] = locals_cmp.get(n.targets[0].id, set()) | positive_conjuncts(n.value)
+
+    def with_locals(e):
+        out = positive_conjuncts(e)
+        for x in (e.values if isinstance(e, ast.BoolOp) and isinstance(e.op, ast.And) else [e]):
+            if isinstance(x, ast.Name) and x.id in locals_cmp:
+                out |= locals_cmp[x.id]
+        return out
+
+    def transfer(node, st):
+        if node.kind == "test" and node.ast is not None:
+            return {"T": frozenset(set(st) | with_locals(node.ast)), "F": st, None: st}
+        if node.kind == "iter" and node.stmt is not None:
+            return frozenset(set(st) | mentioned(node.stmt.iter))
+        return st
+
+    states = solve_forward(g, frozenset(), transfer, lambda a, b: a & b)
+    loops = any(isinstance(n, (ast.For, ast.While)) for n in walk_local_stmt(f.node))
+    if loops:
+        return          # element-wise loops with early exits: decided by the coverage rule and R9.7, not by this path form
+    # only fields this function compares by naming them on both operands (fields compared through properties/helpers are the coverage rule's)
+    fields = [x for x in fields if x in mentioned(f.node)]
+    for nd in g.nodes:
+        if nd.kind == "stmt" and isinstance(nd.ast, ast.Return) and nd.id in states and nd.ast.value is not None:
+            v = nd.ast.value
+            if isinstance(v, ast.Constant) and v.value is False:
+                continue
+            if isinstance(v, ast.Constant) and v.value is NotImplemented:
+                continue
+            have = set(states[nd.id]) | with_locals(v)
+            if isinstance(v, ast.Name) and loops:
+                continue            # a running flag returned after element-wise loops: decided by R9.7 and the coverage rule
+            missing = [x for x in fields if x not in have]
+            r1.ob(not missing, f"{c.name}.__eq__: accepting return at line {nd.lineno} has compared {sorted(have)}")
+            if missing:
+                rep.finding("R9.1", f, nd.ast, f"`{norm(nd.ast)[:60]}` (line {nd.lineno}) can answer True although {missing} has not been compared on the way to it: "
+                            f"two aggregators that differ only there compare equal on that path", stmt=f"accepting return before comparing {missing}")
+
+
 def run(repo, rep, tier):
     rep.extra["explanation"] = (
         "Def-use analysis of all 19 __eq__/__ne__ bodies: every stored field that toJsonFragment serialises must flow, "
@@ -186,6 +254,7 @@ def run(repo, rep, tier):
             if not ok and d and d["full"]:
                 rep.finding("R9.4", f, d["node"], f"`{fld}` is NaN when empty but is compared with ==: an empty aggregator is "
                             f"not equal to itself", stmt=f"{fld}: == on NaN field")
+        accepting_paths_compare_everything(rep, r1, c, f, fields)
         rule_isinstance_first(repo, rep, r2, c, f)
         # R9.3
         ne = repo.own_method(c, "__ne__")
